@@ -499,7 +499,9 @@ class Gen:
             return ("bin", op, l, rr)
         l, rr = self.text_expr(scope, d), self.text_expr(scope, d)
         if not self.f.get("const_cmp", True) and not cols_of(l) and not cols_of(rr):
-            l = self.colref(scope, TEXT) or l
+            l = self.colref(scope, TEXT)
+            if l is None:
+                return ("bin", op, self.colref(scope, INT) or ("lit", 1, INT), self.int_expr(scope, d))
         return ("bin", op, l, rr)
 
     def bool_expr(self, scope, d, subq_ok=False, outer=None):
@@ -546,7 +548,7 @@ class Gen:
     def subq_pred(self, scope, d):
         f = self.f
         kind = self.pick(["in", "exists", "scalar"] + (["any"] if f["any_sub"] else []))
-        t = self.pick(self.tables)
+        t = self._subq_table()
         src = self.base_source(t)
         src.force_qualify = True
         q = Query()
@@ -605,16 +607,29 @@ class Gen:
         cols = [(n, ty, prov) for n, ty, prov in q.out]
         return Source("derived", alias, query=q, cols=cols)
 
+    def _base_tables(self, src):
+        return {t for c in src.cols for (t, _) in c[2]}
+
     def source(self, depth, ctes):
         r = self.rng.random()
+        no_self = not self.f.get("self_join", True)
+        used = getattr(self, "_scope_tables", set())
         if depth > 0 and self.f["derived"] and r < 0.25:
-            self.tags.add("derived")
-            return self.derived_source(depth)
+            saved = self._scope_tables
+            src = self.derived_source(depth)
+            self._scope_tables = saved
+            if not (no_self and self._base_tables(src) & used):
+                self.tags.add("derived")
+                self._scope_tables |= self._base_tables(src)
+                return src
         if ctes and r < 0.6:
             name, q, colnames = self.pick(ctes)
-            self.tags.add("cte:ref")
             cols = [((colnames[i] if colnames else n), ty, prov) for i, (n, ty, prov) in enumerate(q.out)]
-            return Source("cte", self.new_alias("c"), name=name, cols=cols)
+            src = Source("cte", self.new_alias("c"), name=name, cols=cols)
+            if not (no_self and self._base_tables(src) & used):
+                self.tags.add("cte:ref")
+                self._scope_tables |= self._base_tables(src)
+                return src
         cands = self.tables
         if not self.f.get("self_join", True):
             used = getattr(self, "_scope_tables", set())
@@ -898,8 +913,16 @@ class Gen:
             return ("win", ("agg", fn, arg, False), part, [], None)
         return ("win", ("agg", fn, arg, False), part, order, frame)
 
+    def _subq_table(self):
+        if not self.f.get("self_join", True):
+            used = getattr(self, "_scope_tables", set())
+            cands = [t for t in self.tables if t.name not in used]
+            if cands:
+                return self.pick(cands)
+        return self.pick(self.tables)
+
     def scalar_subquery(self, scope):
-        t = self.pick(self.tables)
+        t = self._subq_table()
         src = self.base_source(t)
         src.force_qualify = True
         q = Query()
@@ -963,11 +986,14 @@ class Gen:
     # -- top level -------------------------------------------------------------------
     def query(self):
         f = self.f
-        self.tags = set()
-        q = self.select(top=True)
-        if f["setops"] and self.chance(0.18):
-            q = self.setop_query()
-        q.tags = set(self.tags)
+        for _ in range(20):
+            self.tags = set()
+            q = self.select(top=True)
+            if f["setops"] and self.chance(0.18):
+                q = self.setop_query()
+            q.tags = set(self.tags)
+            if f.get("same_col_const_pair", True) or not any(_const_pair(e) for e in query_exprs(q)):
+                return q
         return q
 
     def setop_query(self):
@@ -1009,3 +1035,83 @@ class Gen:
             if f["limit"] and self.chance(0.4):
                 q.limit = self.pick([1, 2, 3])
         return q
+
+
+# ---------------------------------------------------------------------------------
+# walking a query (used by trigger filters)
+# ---------------------------------------------------------------------------------
+
+
+def walk_expr(e):
+    if not isinstance(e, tuple):
+        return
+    yield e
+    for x in e[1:]:
+        if isinstance(x, tuple):
+            if x and isinstance(x[0], str):
+                yield from walk_expr(x)
+            else:
+                for z in x:
+                    yield from walk_expr(z)
+        elif isinstance(x, list):
+            for y in x:
+                if isinstance(y, tuple) and y and isinstance(y[0], str):
+                    yield from walk_expr(y)
+                elif isinstance(y, tuple):
+                    for z in y:
+                        yield from walk_expr(z)
+        elif isinstance(x, Query):
+            yield from query_exprs(x)
+
+
+def query_exprs(q):
+    """every expression node of a query, including nested queries"""
+    for _, cq, _ in q.ctes:
+        yield from query_exprs(cq)
+    for e, _ in q.projs:
+        yield from walk_expr(e)
+    for src in [q.from_] + [j[1] for j in q.joins]:
+        if src is not None and src.kind == "derived":
+            yield from query_exprs(src.query)
+    for j in q.joins:
+        if j[2] is not None:
+            yield from walk_expr(j[2])
+    for e in (q.where, q.having, q.qualify):
+        if e is not None:
+            yield from walk_expr(e)
+    for e in q.group:
+        yield from walk_expr(e)
+    for _, b in q.setops:
+        yield from query_exprs(b)
+
+
+def _cmp_col_const(e):
+    """comparison of a bare column with a literal -> the column's (alias-or-None, name), else None"""
+    while e[0] == "paren":
+        e = e[1]
+    if e[0] == "bin" and BINOPS.get(e[1]) == "cmp":
+        l, r = e[2], e[3]
+        if l[0] == "col" and r[0] == "lit":
+            return l[2]
+        if r[0] == "col" and l[0] == "lit":
+            return r[2]
+    if e[0] == "between" and e[1][0] == "col":
+        return e[1][2]
+    return None
+
+
+def _conjuncts(e):
+    while e[0] == "paren":
+        e = e[1]
+    if e[0] == "bin" and e[1] == "AND":
+        return _conjuncts(e[2]) + _conjuncts(e[3])
+    return [e]
+
+
+def _const_pair(e):
+    """AND with two comparisons of the same column against literals (listed finding: simplify folds a
+    contradictory pair to FALSE, losing NULL)"""
+    if not (e[0] == "bin" and e[1] == "AND"):
+        return False
+    names = [n for n in (_cmp_col_const(c) for c in _conjuncts(e)) if n]
+    return len(names) != len(set(names))
